@@ -100,7 +100,7 @@ class Rec(object):
 class SReq(object):
     """one user query as seen by the server"""
     __slots__ = ("node", "conn", "req", "tag", "stream", "answered", "t", "seq", "dropped", "late", "t_answered",
-                 "delivery_checked")
+                 "delivery_checked", "recs_before")
 
     def __init__(self, node, conn, req, seq, t):
         self.node, self.conn, self.req, self.seq, self.t = node, conn, req, seq, t
@@ -110,6 +110,7 @@ class SReq(object):
         self.dropped = False      # the server decided never to answer
         self.late = False         # answered after the request's future had already completed
         self.t_answered = None
+        self.recs_before = None   # number of handlers registered (machine-wide) when the server answered
         self.delivery_checked = False
 
     def __repr__(self):
@@ -433,6 +434,7 @@ class Machine(object):
             else:
                 s.answered = kind
                 s.t_answered = self.sim.world.now
+                s.recs_before = len(self.recs)
                 fut = self.futs.get(tag)
                 if fut is not None and fut.done:
                     s.late = True
